@@ -49,6 +49,12 @@ def gen_feedback(rng, m, cfg, nodes):
         return addr, C('MSG_BOOST_STAT'), bytes([rng.choice(uplink.BOOST_OK + uplink.BOOST_ERR)])
     if k == 'boost_diag':
         ks = rng.sample([0, 1, 2], rng.randrange(1, 4))
+        if rng.random() < 0.5:
+            # the list is open-ended: reserved diagnostic types anywhere between the known ones (skipped, whatever follows still counts),
+            # the same type twice (the later value stands), a dangling last byte
+            ks = [rng.choice([0, 1, 2, 0, 1, 2, 3, 4, 0x10, 0x7F, 0x80, 0xFF]) for _ in range(rng.randrange(1, 9))]
+            tail = bytes([rng.randrange(256)]) if rng.random() < 0.2 else b''
+            return addr, C('MSG_BOOST_DIAGNOSTIC'), b''.join(bytes([x, rb(rng)]) for x in ks) + tail
         return addr, C('MSG_BOOST_DIAGNOSTIC'), b''.join(bytes([x, rb(rng)]) for x in ks)
     if k == 'acc_state':
         accs = [(a, 'b') for kk in ('points_board', 'signals_board') for a in ((b or {}).get(kk) or [])]
